@@ -17,7 +17,7 @@ REPO_SRCS := $(foreach d,$(REPO_DIRS),$(wildcard $(REPO)/$(d)/*.cpp) $(wildcard 
 REPO_SRCS := $(filter-out %/Plugins.cpp,$(REPO_SRCS))
 
 SIM_SRCS = sim/sim.cpp sim/simevent.cpp sim/entropy.cpp
-HARNESS_SRCS = harness/usim.cpp harness/exec.cpp harness/faulty.cpp harness/transform_ops.cpp
+HARNESS_SRCS = harness/usim.cpp harness/exec.cpp harness/faulty.cpp harness/transform_ops.cpp harness/simevent_selftest.cpp
 
 INCLUDES = -I/verif/include -I$(REPO)/src -I$(REPO)/contrib/src -I$(REPO)/contrib/src/jsmn \
   -I$(REPO)/contrib/src/uriparser/include -I/usr/include/lua5.3 -I$(REPO)/contrib/src/LuaBridge
@@ -64,7 +64,15 @@ $(foreach f,plain san,$(foreach s,$(SIM_SRCS) $(HARNESS_SRCS),$(eval $(call OWN_
 $(B)/plain/obj $(B)/san/obj:
 	mkdir -p $@
 
-.PHONY: all plain san clean
+.PHONY: all plain san clean selftest conformance
+# libevent conformance: the same four scripts against the real library and against simevent in the simulator
+$(B)/conformance_real: sim/conformance/real_libevent.c | $(B)/plain/obj
+	$(CC) -O1 -o $@ $< -levent -levent_pthreads -lpthread
+conformance: $(B)/conformance_real $(B)/plain/usim
+	$(B)/conformance_real
+	$(B)/plain/usim --simevent-selftest
+selftest: conformance plain
+	cd /verif && ./check selftest
 all: plain san
 plain: $(B)/plain/usim
 san: $(B)/san/usim
